@@ -75,6 +75,14 @@ def bvv(x, n):
     return z3.BitVecVal(int(x) & ((1 << n) - 1), n)
 
 
+class LocalPointer:
+    """trace argument: pointer into a local object of `size` bytes at byte offset `off`, whose
+    contents at the time of the call are `contents` (z3 byte terms)"""
+
+    def __init__(self, size, off, contents):
+        self.size, self.off, self.contents = size, off, contents
+
+
 class Region:
     def __init__(self, name, base, size, kind):
         self.name, self.base, self.size, self.kind = name, base, size, kind
@@ -451,7 +459,20 @@ class IrSem:
                     _h = self.home_of(a, env)
                     if _h is not None and _h.kind == "stack":
                         self.escaped.add(id(_h))
-                self.trace.append((callee.name, [z3.simplify(a) for a in args]))
+                targs = []
+                for a_ir, a in zip(ins.arguments, args):
+                    _h = self.home_of(a_ir, env)
+                    if _h is not None and _h.kind == "stack" and getattr(self, "abstract_local_pointers", False):
+                        # (opt-in) the address of a local is not observable (frames may be laid out differently);
+                        # what the callee can see is the offset into the object and the object's contents
+                        off = z3.simplify(a - z3.BitVecVal(_h.base, self.pb))
+                        cont = [z3.simplify(z3.Select(self.mem, z3.BitVecVal(_h.base + j, self.pb)))
+                                for j in range(min(_h.size, 64))]
+                        targs.append(LocalPointer(_h.size, off, cont))
+                    else:
+                        targs.append(z3.simplify(a))
+                self.trace.append((callee.name, targs))
+                self._havoc_by_external()
                 r = None
                 if k == "FunctionCall":
                     if self.ext_used >= len(self.ext_results):
@@ -464,6 +485,28 @@ class IrSem:
                 env[ins] = r
         else:
             raise Unsupported(f"instruction {k}")
+
+    def _havoc_by_external(self):
+        """An external function may modify every object it can name: globals, caller buffers and locals
+        whose address escaped.  Modelled (opt-in via self.ext_havoc = [byte, ...], one declared symbolic
+        byte per external call, so that counterexamples replay) as: every such byte is XOR-ed with the
+        call's havoc byte.  Not every possible modification, but enough to make moving a load or a store
+        across an external call observable; both sides of a comparison see the same effect."""
+        hv = getattr(self, "ext_havoc", None)
+        if not hv:
+            return
+        n = getattr(self, "_havoc_used", 0)
+        self._havoc_used = n + 1
+        if n >= len(hv):
+            return
+        h = bvv(hv[n], 8)
+        for r in list(self.regions):
+            if r.kind in ("global", "buffer") or (r.kind == "stack" and id(r) in self.escaped):
+                if r.size > 64:
+                    continue
+                for j in range(r.size):
+                    a = z3.BitVecVal(r.base + j, self.pb)
+                    self.mem = z3.Store(self.mem, a, z3.Select(self.mem, a) ^ h)
 
     def binop(self, op, a, b, ty):
         n = bits_of(ty, self.pb)
